@@ -428,6 +428,10 @@ def c11():
         add("C11", f"c11_crash_{nm}_2x2", f"c11::crash_construct({op}, 2, 2)", 8, "quick")
     for (c, r) in [(2, 2), (2, 3), (1, 1)]:
         add("C11", f"c11_crash_drop_clear_{c}x{r}", f"c11::crash_drop_clear({c}, {r})", c * r + 4, "quick" if (c, r) == (2, 2) else "thorough")
+    # an element destructor panicking inside DrainCol::drop (remove_col): state at the crash point; the drop guard's
+    # work during unwinding is seen by the native replay only
+    for (c, r) in [(2, 2), (3, 2), (2, 3), (1, 2)]:
+        add("C11", f"c11_crash_drop_drain_col_{c}x{r}", f"c11::crash_drop_drain_col({c}, {r})", c * r + 4, "quick" if (c, r) == (2, 2) else "thorough")
 
 
 CAPOVF_STUB = ("alloc::raw_vec::capacity_overflow", "crate::stubs::capacity_overflow_observed")
